@@ -34,7 +34,7 @@ import numpy as np
 from harness import graphutil as gu
 from harness import stabutil as su
 from harness import tabutil as tu
-from harness.common import Driver, Result, err_class
+from harness.common import Driver, Result, err_class, impl_guard
 
 LEVEL = "proof"
 TRUSTED_BASE = [
@@ -49,9 +49,10 @@ TRUSTED_BASE = [
     "np.linalg.inv on the unit-triangular 0/1 matrices that occur is exact in floating point (the model inverts over GF(2); that the matrices are "
     "upper unitriangular, that the exact inverse exists and is two-sided, and that no internal assertion of is_lc_equivalent can fire is proved: "
     "is_lc_equivalent_component_total, is_lc_equivalent_total)",
-    "_phase_correction is modelled at specification level (the unique set of Z gates fixing the signs; proved: it exists for every valid Q, the model "
-    "finds it, and the total gate list maps |A> onto |B> - gates_with_phase_correction_map_the_state, lc_check_total_and_right); that graphiq's "
-    "computation from two canonical forms gives the same set is compared per input; canonical_form itself belongs to C05",
+    "_phase_correction and the validation of lc_check are modelled function by function for the repaired code (converterGateListF / lcCheckF: the C08 "
+    "model S2G.phaseCorrection, comparison of canonical forms) and proved to return what the specification-level model returns "
+    "(phase_correction_is_the_sign_fix, lc_check_function_level_agrees); canonical_form itself belongs to C05; for the unrepaired code the "
+    "specification-level model (unique set of Z gates fixing the signs) is compared",
     "tensor-product lifting of the tableau semantics (C07) used to interpret the returned gates",
     "harness, line protocol, driver BFS orbit enumeration over the verified localComp",
 ]
@@ -79,10 +80,12 @@ class RandintRecorder:
 
     def __call__(self, *a, **k):
         v = self.real(*a, **k)
-        self.vals.append(int(v))
+        # a scalar draw or (after a refactor that draws several values at once) an array: recorded value by value, never a TypeError
+        drawn = [int(x) for x in np.ravel(v)]
+        self.vals.extend(drawn)
         if not self.segments:
             self.segments.append([])
-        self.segments[-1].append(int(v))
+        self.segments[-1].extend(drawn)
         return v
 
     def seed(self, *a, **k):
@@ -220,7 +223,15 @@ def check_ops_table(res, drv):
         blk = np.array([[m >> 3 & 1, m >> 2 & 1], [m >> 1 & 1, m & 1]])
         for ctx_blocks in ([blk], [np.eye(2, dtype=int), blk, np.array([[0, 1], [1, 0]])]):
             Q = np.array(ctx_blocks)
-            names = local_clifford_ops(Q)
+            try:
+                names = local_clifford_ops(Q)
+            except Exception as e:  # noqa: BLE001 — the table is total on binary 2x2 blocks (the model's is): compared as an error class below
+                names = None
+                res.count("errors", f"ops:{err_class(e)}")
+                lines.append(f"lc.ops q={q_bits(Q)}")
+                meta.append((Q, "err " + err_class(e)))
+                res.evaluations += 1
+                continue
             res.evaluations += 1
             lines.append(f"lc.ops q={q_bits(Q)}")
             meta.append((Q, names))
@@ -239,6 +250,10 @@ def check_ops_table(res, drv):
                     res.nontrivial("ops", m)
     reps = drv.batch(lines)
     for rep, (Q, names) in zip(reps, meta):
+        if isinstance(names, str):  # the implementation raised: the model must predict the same error class
+            if rep["_raw"] != names:
+                res.exact_break("lc.ops:raises", input={"q": q_bits(Q)}, impl=names, model=rep["_raw"][:200])
+            continue
         want = ",".join(".".join(nm.split()) for nm in names) if names else "-"
         if rep["_status"] != "ok" or rep.get("ops") != want:
             res.exact_break("lc.ops", input={"q": q_bits(Q)}, impl=want, model=rep["_raw"][:200])
@@ -450,9 +465,14 @@ def check_pair(res, drv, orb, A, B, modes=("deterministic",), seed=0, deep=True,
         elif cerr2 != "assertion":
             res.exact_break("state_converter_circuit:not-equivalent", input=inp, impl=str(cerr2), model="err assertion")
     if want_system:
-        sysd = system_lines(A, B)
-        lines.append(f"lc.system {inp['a']} {inp['b']}")
-        meta.append(("system", None, sysd))
+        try:
+            sysd = system_lines(A, B)
+        except Exception as e:  # noqa: BLE001 — _coeff_maker / row_reduction / _col_finder are total on two simple graphs of equal size
+            sysd = None
+            res.exact_break(f"lc.system:raises:{err_class(e)}", input=inp, impl=f"{type(e).__name__}: {e}"[:300], model="the intermediate quantities of is_lc_equivalent")
+        if sysd is not None:
+            lines.append(f"lc.system {inp['a']} {inp['b']}")
+            meta.append(("system", None, sysd))
         if repaired():
             # `_connected_components` of the repaired code against the model and against the definition
             for M in (A, B):
@@ -639,11 +659,16 @@ def check_tableau_inputs(res, drv, orb, rng, count, nmax):
         else:
             B = gu.structured_graph(rng, n)
         k1, k2 = rng.choice(["stab", "cliff"]), rng.choice(["stab", "cliff", "graph"])
-        t1, g1 = rotated_tableau(rng, A, k1)
-        if k2 == "graph":
-            t2, g2 = gu.to_graph(B), []
-        else:
-            t2, g2 = rotated_tableau(rng, B, k2)
+        try:
+            t1, g1 = rotated_tableau(rng, A, k1)
+            if k2 == "graph":
+                t2, g2 = gu.to_graph(B), []
+            else:
+                t2, g2 = rotated_tableau(rng, B, k2)
+        except Exception as e:  # noqa: BLE001 — graph -> tableau and run_circuit (properties C08 / C07) on valid inputs: reported, not a crash
+            res.exact_break(f"tab:input-construction:raises:{err_class(e)}", input={"a": gu.adj_args(A), "b": gu.adj_args(B, "b", with_n=False), "kinds": [k1, k2]},
+                            impl=f"{type(e).__name__}: {e}"[:300], model="a tableau of the rotated graph state")
+            continue
         inp = {"a": gu.adj_args(A), "b": gu.adj_args(B, "b", with_n=False), "kinds": [k1, k2], "gates1": gu.gates_str(g1), "gates2": gu.gates_str(g2)}
         res.evaluations += 1
         res.count("sizes", f"tab:n={n}")
@@ -751,6 +776,9 @@ def d14_witnesses(res, drv, orb):
             res.evaluations += 1
             if st == "ok" and not yes:
                 hit = True
+            elif st == "err":  # not 'the finding no longer reproduces': the test raised on a graph compared with itself
+                gu.viol(res, f"is_lc_equivalent:raises:{yes}", "the LC-equivalence test raised on two simple graphs of equal size",
+                        input={"a": gu.adj_args(A), "b": gu.adj_args(A, "b", with_n=False)}, mode=mode)
     if hit:
         res.known.append((K_FALSE_NO_D14, "2K2 / K2+K1 compared with themselves answer no"))
     else:
@@ -901,28 +929,41 @@ def run(ctx):
     drv = gu.RDriver()
     orb = gu.OrbitOracle(drv)
     rng = ctx.rng
-    check_ops_table(res, drv)
-    check_valid_clifford(res, drv, rng, 100 if ctx.quick else 2000)
-    d14_witnesses(res, drv, orb)
-    former_d40_inputs(res, drv)
-    malformed(res, drv, rng)
+    # every stream runs under common.impl_guard: an exception of graphiq on a valid input that no call site handles (helpers called
+    # outside the try blocks: state_to_graph, clifford_from_stabilizer, Graph(...), ...) is reported, it no longer ends as exit 2
+    with impl_guard(res, "local_clifford_ops"):
+        check_ops_table(res, drv)
+    with impl_guard(res, "_is_valid_clifford"):
+        check_valid_clifford(res, drv, rng, 100 if ctx.quick else 2000)
+    with impl_guard(res, "is_lc_equivalent:witnesses", promise=True):
+        d14_witnesses(res, drv, orb)
+    with impl_guard(res, "lc_check:tableau", promise=True):
+        former_d40_inputs(res, drv)
+    with impl_guard(res, "malformed"):
+        malformed(res, drv, rng)
     # local complementation: exhaustive small, random larger
     nlc = 4 if ctx.quick else 5
-    for n in range(1, nlc + 1):
-        check_local_comp(res, drv, [gu.graph_of_mask(n, m) for m in range(gu.n_graphs(n))], f"all graphs n={n}")
-    check_local_comp(res, drv, [gu.structured_graph(rng, rng.randrange(5, 13)) for _ in range(30 if ctx.quick else 200)], "random")
+    with impl_guard(res, "local_comp", promise=True):
+        for n in range(1, nlc + 1):
+            check_local_comp(res, drv, [gu.graph_of_mask(n, m) for m in range(gu.n_graphs(n))], f"all graphs n={n}")
+        check_local_comp(res, drv, [gu.structured_graph(rng, rng.randrange(5, 13)) for _ in range(30 if ctx.quick else 200)], "random")
     # all ordered pairs
-    for n in (1, 2, 3):
-        exhaustive_pairs(res, drv, orb, n)
-    exhaustive_pairs(res, drv, orb, 4, deep_every=1 if not ctx.quick else 3)
-    res.exhaustive = True
-    res.notes.append("exhaustive: all ordered pairs of graphs on n<=4 vertices (4,165 pairs), deterministic mode; all 16 blocks of local_clifford_ops; local complementation on all graphs n<=4 x all vertices")
+    with impl_guard(res, "all-pairs", promise=True):
+        for n in (1, 2, 3):
+            exhaustive_pairs(res, drv, orb, n)
+        exhaustive_pairs(res, drv, orb, 4, deep_every=1 if not ctx.quick else 3)
+        res.exhaustive = True
+        res.notes.append("exhaustive: all ordered pairs of graphs on n<=4 vertices (4,165 pairs), deterministic mode; all 16 blocks of local_clifford_ops; local complementation on all graphs n<=4 x all vertices")
     # random mode and larger graphs
-    random_pairs(res, drv, orb, rng, 150 if ctx.quick else 1500, 2, 6, ("deterministic", "random"))
-    random_pairs(res, drv, orb, rng, 12 if ctx.quick else 150, 7, 9 if ctx.quick else 12, ("deterministic", "random"))
-    shortcut_on_connected(res, drv, orb, rng, 60 if ctx.quick else 1500, 10 if ctx.quick else 14)
-    check_tableau_inputs(res, drv, orb, rng, 150 if ctx.quick else 1500, 5 if ctx.quick else 6)
-    check_iso_equal(res, drv, orb, rng, 60 if ctx.quick else 600)
+    with impl_guard(res, "random-pairs", promise=True):
+        random_pairs(res, drv, orb, rng, 150 if ctx.quick else 1500, 2, 6, ("deterministic", "random"))
+        random_pairs(res, drv, orb, rng, 12 if ctx.quick else 150, 7, 9 if ctx.quick else 12, ("deterministic", "random"))
+    with impl_guard(res, "shortcut-on-connected", promise=True):
+        shortcut_on_connected(res, drv, orb, rng, 60 if ctx.quick else 1500, 10 if ctx.quick else 14)
+    with impl_guard(res, "lc_check:tableau", promise=True):
+        check_tableau_inputs(res, drv, orb, rng, 150 if ctx.quick else 1500, 5 if ctx.quick else 6)
+    with impl_guard(res, "iso_equal_check", promise=True):
+        check_iso_equal(res, drv, orb, rng, 60 if ctx.quick else 600)
     if not ctx.quick:
         exhaustive_n5_sharded(ctx, res)
     res.extra["driver_lines"] = drv.n_lines
